@@ -85,6 +85,9 @@ func main() {
 			fmt.Fprintln(os.Stderr, "unknown oracle", os.Args[2])
 			os.Exit(2)
 		}
+		// the oracles run with the library's logger at trace level (output still discarded): code that only runs when a debug or
+		// trace line is enabled is part of the library too; the correspondence run keeps the default level, so both states are seen
+		logger.GetLogger().SetLevel(logger.GetLogger().Level + 2)
 		runLines(func(op string, args []string) string {
 			r := withTimeoutD(limitFor(op), func() string { return f(op, args) })
 			if r == "hang" {
